@@ -135,6 +135,34 @@ func scenarios(tier string) []engine.Scenario {
 				runProgram(c, e, name, 0, pos[0], pos[1:])
 			}})
 		}
+		// boundary scalars: every accepted scalar Go type at the values where a conversion through a narrower or signed
+		// type changes the number, through every opcode that takes a scalar (and ScaleUp), one instruction each,
+		// from the top-level files (large constants only fit the modulus there)
+		{
+			name := cf.Name + "/boundary-scalars"
+			scs = append(scs, engine.Scenario{Name: name, Bound: -1, Fn: func(c *engine.Chooser) {
+				e := get(c)
+				var first []instr
+				for _, op := range []string{"Add", "Sub", "Mul", "MulRelin", "MulThenAdd", "MulRelinThenAdd"} {
+					for _, k := range e.bconsts {
+						d := "inplace"
+						if op == "MulThenAdd" || op == "MulRelinThenAdd" {
+							d = "acc"
+						}
+						first = append(first, instr{op, k.kind, d, false})
+						if d == "inplace" && (op == "Add" || op == "Mul") {
+							first = append(first, instr{op, k.kind, "new", false})
+						}
+					}
+				}
+				for _, k := range []string{"x2p32", "x2p63", "x2p64m1"} {
+					first = append(first, instr{"ScaleUp", k, "inplace", false}, instr{"ScaleUp", k, "new", false})
+				}
+				c.Cover("plan", "boundary-scalars")
+				init := []int{0, 1}[c.Choose(2, "init")]
+				runProgram(c, e, name, init, first, nil)
+			}})
+		}
 		primary := ci == 0 || cf.Name == "std4-s80-P2" || cf.Name == "ci4-s45-P1"
 		for _, pl := range plans(tier, primary, ci == 0) {
 			pl := pl
@@ -226,7 +254,7 @@ func main() {
 				"auxiliary-primes=0", "auxiliary-primes=1", "auxiliary-primes=2", "packing=sparse", "packing=full", "slots=1", "slots=2", "slots=4", "slots=8", "slots=16",
 				"scales=equal", "scales=ratio-integer", "scales=ratio-non-integer", "scalar-path=gaussian-integer", "scalar-path=non-integer",
 				"mta-scale-up=integer-ratio", "mta-scale-up=equal", "mta-const=equal-scales", "mta-const=acc-scale-larger",
-				"oracle=tight", "decoder=reused", "plan=spine", "dest=inplace", "dest=new", "dest=out", "dest=acc", "dest=reused", "setscale=non-integer-ratio", "rescaleto=levels-0", "rescaleto=levels-1"}
+				"oracle=tight", "decoder=reused", "plan=spine", "plan=boundary-scalars", "kind=uint64-2p63", "kind=uint-2p64m1", "kind=int64-min", "kind=bigInt-2p64p1", "kind=float64-2p63", "kind=x2p63", "dest=inplace", "dest=new", "dest=out", "dest=acc", "dest=reused", "setscale=non-integer-ratio", "rescaleto=levels-0", "rescaleto=levels-1"}
 			seen := map[string]bool{}
 			for _, i := range alphabet() {
 				if !seen["op="+i.op] {
